@@ -267,6 +267,77 @@ def run(tier, replay=None):
     check_family(chk, F, 'Chain_vine_swap', CH, ['vine_swap', 'vine_swap_with_z_eq_1_case'], 'swap_positions',
                  kept='columnIndex2', exchanged='columnIndex1',
                  sign_vars={'col1IsNeg': (1, '-'), 'col2IsNeg': (2, '-')}, pairing_only=True)
+    check_paired_direction(chk, F)
     chk.assumptions += ['clang 14 parser; template patterns (all if-constexpr arms, contradictory arms pruned)',
                         'the *_transpose functions are the only code exchanging bars (checked by name)']
     return chk
+
+
+def check_paired_direction(chk, F):
+    """E2-paired-direction: a paired positive chain g and the chain h that kills it satisfy d(h) = g, and the boundary
+    is linear: when a swap handler adds chain a onto chain b, the chains paired with them are added in the same
+    direction (partner(a) onto partner(b)) on the same path - otherwise d(h) != g afterwards and the next case
+    analysis involving the partners takes the wrong branch. Operands are normalised to (index | partner, 1 | 2)."""
+    fns = [f for f in F.functions if f.get('clsname') == 'Chain_vine_swap' and f.get('inst') in (0, 2) and
+           f.get('body') is not None and f['name'] in HANDLERS]
+    n = 0
+    for f in fns:
+        if len(f.get('params', [])) != 2:
+            continue
+        i1, i2 = f['params'][0]['n'], f['params'][1]['n']
+        # locals: colN = get_column(indexN) ; pairedIndexN = colN.get_paired_chain_index()
+        col = {}
+        par = {}
+        for x in ir.walk(f['body']):
+            if x.get('k') == 'VarDecl' and x.get('init') is not None:
+                t = ir.show(x['init'])
+                if 'get_column(%s)' % i1 in t:
+                    col[x['n']] = 1
+                elif 'get_column(%s)' % i2 in t:
+                    col[x['n']] = 2
+        for x in ir.walk(f['body']):
+            if x.get('k') == 'VarDecl' and x.get('init') is not None:
+                t = ir.show(x['init'])
+                for c_, k_ in col.items():
+                    if t.replace(' ', '') == '%s.get_paired_chain_index()' % c_:
+                        par[x['n']] = k_
+
+        def norm(e):
+            t = ir.show(e).replace(' ', '')
+            if t == i1:
+                return 'I1'
+            if t == i2:
+                return 'I2'
+            if t in par:
+                return 'P%d' % par[t]
+            for c_, k_ in col.items():
+                if t == '%s.get_paired_chain_index()' % c_:
+                    return 'P%d' % k_
+            return None
+
+        def cl(x):
+            if ir.is_call(x) and ir.call_name(x) == 'add_to' and len(ir.call_args(x)) == 2:
+                a, b = [norm(y) for y in ir.call_args(x)]
+                if a and b:
+                    return ['ADD:%s>%s' % (a, b)]
+            return []
+        if not ir.contains(f['body'], lambda y: any(t.startswith('ADD:P') for t in cl(y))):
+            continue
+        ps = paths.enumerate_paths(f, cl, loop_mode='01', keep_conds=False, cap=20000)
+        bad = None
+        for p in ps:
+            if p.end == 'throw':
+                continue
+            adds = [t[4:] for t in p.tags() if t.startswith('ADD:')]
+            pp = sorted(t.replace('P', '') for t in adds if t.startswith('P'))
+            ii = sorted(t.replace('I', '') for t in adds if t.startswith('I'))
+            if pp and pp != ii and bad is None:
+                bad = (adds, p)
+        n += 1
+        chk.ob('E2-paired-direction', 'Chain_vine_swap::%s: partners are added in the direction of their chains on '
+               'every path (%d paths)' % (f['name'], len(ps)), '%s:%d' % (rel(f['file']), f['line']), bad is None,
+               '' if bad is None else 'a path performs the additions %s: the partners are combined %s while the '
+               'chains themselves are combined %s' % (bad[0], [t for t in bad[0] if t.startswith('P')],
+                                                      [t for t in bad[0] if t.startswith('I')]),
+               key='E2|Chain_vine_swap::%s|paired-direction' % f['name'])
+    chk.expect_count('E2-paired-direction', 'handlers adding paired chains', n, 2)
